@@ -21,8 +21,9 @@ PROPS = {
         explore=ce.explore_c01,
     ),
     "C02": dict(
-        modules=["JPV.Props.C02", "JPV.Props.C06", "JPV.Props.C13"],
+        modules=["JPV.Props.C02", "JPV.Props.C06", "JPV.Props.C13", "JPV.Props.C03"],
         theorems=["JPV.Props.eval_correct", "JPV.Props.builtin_conforms", "JPV.Props.C02_builtin", "JPV.Props.compile_then_find",
+                  "JPV.Props.C02_end_to_end",
                   "JPV.Props.C02_scalar", "JPV.Props.C02_existence", "JPV.Props.C02_logic", "JPV.Props.C06"],
         tables=[T + "precedences_model", T + "precedence_consts", T + "binary_operators_model",
                 T + "token_map_model", T + "function_argument_map_model", T + "builtin_sigs_model"],
